@@ -12,4 +12,4 @@ CONSTANTS
   CheckSplit = TRUE
   KindN = 3
   FewSubsets = FALSE
-  RootEdges = TRUE
+  RootN = 3
